@@ -10,6 +10,14 @@ import hashlib
 from . import AnalysisError
 
 
+class _DropAnnotations(ast.NodeTransformer):
+    def visit_AnnAssign(self, n):
+        self.generic_visit(n)
+        if n.value is not None:
+            return ast.copy_location(ast.Assign(targets=[n.target], value=n.value, type_comment=None), n)
+        return n
+
+
 class FuncInfo:
     def __init__(self, module, cls, node):
         self.module = module
@@ -138,6 +146,9 @@ class ModuleInfo:
             self.tree = ast.parse(source, filename=relpath)
         except SyntaxError as e:
             raise AnalysisError("syntax error in %s: %s" % (relpath, e))
+        # normal form: an annotated assignment `x: T = v` is the assignment `x = v`
+        self.tree = _DropAnnotations().visit(self.tree)
+        ast.fix_missing_locations(self.tree)
         from . import alpha
         self.renamed_locals = alpha.normalise_module(self.tree, relpath)
         self.functions = {}
